@@ -81,9 +81,14 @@ func (g *rgRunner) newRG(max, min int) {
 	g.async, g.inflight, g.delayNext = false, map[int][]int{}, false
 	g.registered = 0
 	g.calls, g.choices, g.handed = nil, nil, nil
+	// the two settings in either order (it depends on the settings themselves, so that a history replays the same way)
+	first, second := regulator.MaxPlayersPerTable(max), regulator.MinInitialPlayers(min)
+	if (max+min)%2 == 1 {
+		first, second = second, first
+	}
 	g.r = regulator.NewRegulator(
-		regulator.MaxPlayersPerTable(max),
-		regulator.MinInitialPlayers(min),
+		first,
+		second,
 		regulator.WithRequestTableFn(func(players []string) (string, error) {
 			g.nextTbl++
 			ids := fromNames(players)
@@ -710,6 +715,13 @@ func runRG(dir string, seed uint64, n int) {
 		min := 2 + rng.Intn(max-1)
 		if rng.Chance(0.3) {
 			max, min = 9, 6
+		} else if rng.Chance(0.1) {
+			// bigger tables, minimum above the default table size
+			max = 10 + rng.Intn(5)
+			min = 2 + rng.Intn(max-1)
+			if rng.Chance(0.6) {
+				min = 10 + rng.Intn(max-9)
+			}
 		} else if rng.Chance(0.12) {
 			// settings outside 2 <= min <= max (C09 and C20 say "all settings"): one-seat tables, min above max, min 0 or 1
 			max = 1 + rng.Intn(3)
